@@ -40,7 +40,9 @@ import (
 	"verif/sim"
 )
 
-const verifDir = "/verif"
+// verifDir is /verif for every registered command. VERIF_DIR (development only: running
+// the checks from a snapshot of /verif while /verif itself is being edited) redirects it.
+var verifDir = "/verif"
 
 // repoDir is /repo for every registered command. VERIF_REPO (development only:
 // running the checks against a scratch worktree that carries a seeded change)
@@ -51,6 +53,9 @@ var (
 )
 
 func init() {
+	if v := os.Getenv("VERIF_DIR"); v != "" {
+		verifDir, outDir = v, v
+	}
 	if r := os.Getenv("VERIF_REPO"); r != "" {
 		repoDir = r
 		outDir = os.Getenv("VERIF_OUT")
